@@ -32,7 +32,7 @@ RULE = ('case = (config or composition, seed, operation sequence). non-trivial =
         'without read, and a mid-episode reset; distinct by (config, seed, hash of the operation sequence).')
 ASSUMPTIONS = ['twin environments built from the same configuration with the same seed start from identical generator states']
 REQUIRED = {'quick': {'sequences': 60, 'ops': 8000, 'reads.first_after_change': 1500, 'reads.repeated': 1500,
-                      'before_reset.checked': 60, 'outer.checked': 500, 'outer.no_representation': 20,
+                      'before_reset.checked': 60, 'outer.checked': 500, 'outer.no_representation': 20, 'outer.inner_read_first': 200,
                       'stochastic_obs.sequences': 8, 'fresh.deterministic_checked': 1000}}
 
 
@@ -180,13 +180,19 @@ def outer_checks(ctx, make, label, ops, payload, state_ok):
             orep = make_observation_representation(oname, inner.observation_space) if oname else None
             outer = OuterEnv(inner, state_representation=srep, observation_representation=orep)
             outer.reset()
-            for i, op in enumerate(ops[:25]):
+            for i, op in enumerate(ops[:40]):
                 if isinstance(op, tuple) and op[0] == 'step':
                     acts = outer.action_space.actions
                     res = outer.step(acts[op[1] % len(acts)])
                     if res[1]:
                         outer.reset()
+                elif op == 'reset':
+                    outer.reset()
                 ctx.ev()
+                if i % 2 == 1:
+                    # somebody (a renderer, a monitor) reads the inner observation first: the outer one must still be fresh
+                    call_real(lambda: inner.observation)
+                    ctx.hit('outer.inner_read_first')
                 for what, rep, getter, inner_get in (('state', srep, lambda: outer.state, lambda: inner.state),
                                                      ('observation', orep, lambda: outer.observation, lambda: inner.observation)):
                     ok, got = call_real(getter)
